@@ -19,6 +19,7 @@ import (
 	"github.com/XiXi-2024/xixi-kv/datafile"
 	"github.com/XiXi-2024/xixi-kv/fio"
 	"github.com/XiXi-2024/xixi-kv/index"
+	"github.com/XiXi-2024/xixi-kv/utils"
 )
 
 // EngErr maps an engine error to the model's enum.
@@ -766,6 +767,167 @@ func (r *EngineRunner) Exec(f []string) (res string) {
 			s = "err " + EngErr(err)
 		}
 		return s + " order " + strings.Join(ids, ",") + r.takeEvents(false)
+	case "mergebatchcrash":
+		// E mergebatchcrash <nkeys> <vlen> <seed>: a Merge is parked at the first step of its scan; another client
+		// opens a batch that overwrites live keys and is large enough to flush pieces before Commit; the merge
+		// goes on.  Then "the process dies" before Commit: the directory as it is (with the merge directory) is
+		// opened - the batch must be invisible and every key must still have its value (C04, C07).  After
+		// that the batch commits, the merge finishes, the database is closed and opened again: the committed
+		// batch is there.  Everything is judged against the reference mapping; the database is left closed
+		// (last operation of a scenario; for the model this is nothing).
+		{
+			saved1, saved2, saved3 := fio.VerifEvent, kv.VerifFsEvent, kv.VerifMergeFile
+			fio.VerifEvent, kv.VerifFsEvent, kv.VerifMergeFile = nil, nil, nil
+			defer func() { fio.VerifEvent, kv.VerifFsEvent, kv.VerifMergeFile = saved1, saved2, saved3 }()
+			nkeys, vlen, rng := atoi(f[2]), atoi(f[3]), NewRng(atou(f[4]))
+			parked, release, done := make(chan struct{}), make(chan struct{}), make(chan error, 1)
+			var once sync.Once
+			mergeG := int64(-1)
+			kv.VerifSched = func(label string) {
+				if label == "merge.scan" && goid() == mergeG {
+					once.Do(func() { close(parked); <-release })
+				}
+			}
+			db := r.db
+			go func() { mergeG = goid(); done <- db.Merge() }()
+			finish := func(note string) string {
+				kv.VerifSched = nil
+				_ = r.db.Close()
+				r.db = nil
+				r.events = nil
+				return "done # " + note
+			}
+			select {
+			case err := <-done:
+				r.ref.merge(r, err)
+				return finish("nothing-to-scan")
+			case <-parked:
+			case <-time.After(20 * time.Second):
+				r.fail("C09", "Merge did not reach its scan within 20 s")
+				close(release)
+				<-done
+				return finish("stuck")
+			}
+			before := map[string][]byte{}
+			for k, v := range r.ref.m {
+				before[k] = v
+			}
+			liveKeys := r.ref.sortedKeys()
+			b := r.db.NewBatch(kv.BatchOptions{Sync: rng.Chance(1, 2)})
+			type kvp struct{ k, v []byte }
+			var writes []kvp
+			for i := 0; i < nkeys; i++ {
+				var k []byte
+				if i < len(liveKeys) && liveKeys[i] != "" {
+					k = []byte(liveKeys[i]) // overwrite (or, every fourth, delete) a live key
+				} else {
+					k = []byte(fmt.Sprintf("mb%03d", i))
+				}
+				if i%4 == 3 {
+					if err := b.Delete(k); err == nil {
+						writes = append(writes, kvp{k, nil})
+					}
+					continue
+				}
+				v := GenBytes(vlen, uint64(rng.Intn(1<<30)))
+				if err := b.Put(k, v); err != nil {
+					r.fail("C05", "Batch.Put inside mergebatchcrash: %v", err)
+				} else {
+					writes = append(writes, kvp{k, v})
+				}
+			}
+			close(release)
+			// the merge runs on; it either finishes its output (marker) or waits for the batch
+			marker := filepath.Join(r.mergeDir(), "000000000.merge-finished")
+			markerSeen := false
+			for i := 0; i < 40; i++ {
+				if st, err := os.Stat(marker); err == nil && st.Size() >= 4 {
+					markerSeen = true
+					break
+				}
+				time.Sleep(5 * time.Millisecond)
+			}
+			if markerSeen {
+				time.Sleep(20 * time.Millisecond)
+			}
+			// the process dies here, before Commit
+			img, err := os.MkdirTemp(r.Root, "mbc")
+			if err == nil {
+				_ = utils.CopyDir(r.dir(), filepath.Join(img, "db"), []string{".lock"})
+				if _, e := os.Stat(r.mergeDir()); e == nil {
+					_ = utils.CopyDir(r.mergeDir(), filepath.Join(img, "db-merge"), nil)
+				}
+				o2 := r.opts
+				o2.DirPath = filepath.Join(img, "db")
+				if db2, err := kv.Open(o2); err != nil {
+					r.fail("C04", "crash before Commit of a batch that was open while Merge scanned: the directory does not open: %v", err)
+				} else {
+					keys := db2.ListKeys()
+					if len(keys) != len(before) {
+						r.fail("C04", "crash before Commit of a batch that was open while Merge scanned (marker written: %v): %d keys recovered, the mapping before the batch had %d", markerSeen, len(keys), len(before))
+					}
+					for k, want := range before {
+						if k == "" {
+							continue
+						}
+						v, err := db2.Get([]byte(k))
+						if err != nil {
+							r.fail("C04", "crash before Commit of a batch that was open while Merge scanned (marker written: %v): key %s is lost (%v); neither the uncommitted batch nor the merge may take its value %s away", markerSeen, Obs([]byte(k)), err, Obs(want))
+							break
+						} else if !bytes.Equal(v, want) {
+							r.fail("C04", "crash before Commit of a batch that was open while Merge scanned: key %s = %s, before the batch it was %s", Obs([]byte(k)), Obs(v), Obs(want))
+							break
+						}
+					}
+					_ = db2.Close()
+				}
+				_ = os.RemoveAll(img)
+			}
+			// the other history: the batch commits, the merge finishes, restart
+			cerr := b.Commit()
+			if cerr == nil {
+				for _, w := range writes {
+					if w.v == nil {
+						delete(r.ref.m, string(w.k))
+					} else {
+						r.ref.m[string(w.k)] = w.v
+					}
+				}
+			}
+			var merr error
+			select {
+			case merr = <-done:
+			case <-time.After(20 * time.Second):
+				r.fail("C09", "Merge had not returned 20 s after the batch committed")
+			}
+			kv.VerifSched = nil
+			check := func(d *kv.DB, when string) {
+				if n := len(d.ListKeys()); n != len(r.ref.m) {
+					r.fail("C04", "%s: %d keys, the mapping has %d", when, n, len(r.ref.m))
+				}
+				for k, want := range r.ref.m {
+					if k == "" {
+						continue
+					}
+					if v, err := d.Get([]byte(k)); err != nil || !bytes.Equal(v, want) {
+						r.fail("C04", "%s: Get(%s) = %s, %v; the mapping holds %s", when, Obs([]byte(k)), Obs(v), err, Obs(want))
+						break
+					}
+				}
+			}
+			check(r.db, "after Commit of the batch and the end of the merge")
+			_ = r.db.Close()
+			r.db = nil
+			r.events = nil
+			o3 := r.opts
+			if db3, err := kv.Open(o3); err != nil {
+				r.fail("C07", "restart after a merge that ran while a batch was open: %v", err)
+			} else {
+				check(db3, "after the restart that adopts the merge")
+				_ = db3.Close()
+			}
+			return fmt.Sprintf("done # marker_before_commit=%v commit_err=%v merge_err=%v writes=%d", markerSeen, cerr, merr, len(writes))
+		}
 	case "mergeget":
 		// a Merge during which another client reads: at every file operation, directory operation and scan
 		// step of the merge a Get is issued from a second goroutine.  No mutation runs, so every Get that
